@@ -1,0 +1,21 @@
+//go:build verif
+
+package certmagic
+
+// Verification hooks (build tag "verif" only) for the bundle checks (C06/C07):
+// read-only snapshots of unexported state. No existing code is changed.
+
+// VerifBundleCachedCertificates returns a copy of every certificate currently in the cache.
+func VerifBundleCachedCertificates(c *Cache) []Certificate { return c.getAllCerts() }
+
+// VerifBundleCertIssuerKey returns the issuer key a managed certificate was loaded with.
+func VerifBundleCertIssuerKey(cert Certificate) string { return cert.issuerKey }
+
+// VerifBundleCertRevoked reports whether the OCSP response attached to cert says Revoked,
+// and the revocation reason.
+func VerifBundleCertRevoked(cert Certificate) (revoked bool, reason int) {
+	if cert.ocsp == nil {
+		return false, 0
+	}
+	return cert.ocsp.Status == 1, cert.ocsp.RevocationReason // ocsp.Revoked == 1
+}
